@@ -16,6 +16,8 @@ def run(ctx):
     shared.check_witness(r, "R13_1NoRawEncoding", "Settings::with_encoding accepts a raw &'static Encoding (UTF-16 could be configured)")
     shared.check_witness(r, "R13_1PrivateConstructor", "the tuple constructor of AsciiCompatibleEncoding is reachable from outside the crate")
     clause_ascii_compatible_ctor(r, mir)
+    from . import shared_mir as _sm13
+    _sm13.clause_rewrite_str_plumbing(r, mir)
 
     # ------------------------------------------------------------------ R13.2
     r = ctx.rule("R13.2", "at most one switch, only for tokens after the meta tag, sink notified first: the shared encoding is a write-once cell set only by the charset handler; flush_encoding_change runs only right after the token that may have changed it was produced and committed", "E-MIR", floor=4)
